@@ -615,4 +615,91 @@ theorem drive_spec (C : Cfg) (hC : 1 < C.stepsMax) (P : HsP) (dc ds : Bytes) (rx
     · rw [hy.reads hcp.1] at hw; cases hw
     · exact hin hp
 
+/-- one call of the polling client -/
+theorem peer_spec (C : Cfg) (hC : 1 < C.stepsMax) (P : HsP) (dc ds : Bytes) (hdc : dc ≠ []) (rx : Nat) (y : SysAS)
+    (hy : AInv P dc ds y) (k : Kind) (hk : k.ok) :
+    AInv P dc ds (y.step C P dc rx (.peer k)) ∧ (y.step C P dc rx (.peer k)).x.s.e = y.x.s.e ∧
+    work P (y.step C P dc rx (.peer k)).ep ≤ work P y.ep ∧
+    (CanProg true y.ep y.x.s.w → work P (y.step C P dc rx (.peer k)).ep < work P y.ep) ∧
+    y.x.s.w.cs ≤ (y.step C P dc rx (.peer k)).x.s.w.cs ∧ y.ep.stage ≤ (y.step C P dc rx (.peer k)).ep.stage := by
+  have hcall : ∃ n, 1 ≤ n ∧ (k.call dc = .send dc ∨ k.call dc = .recv n) := by
+    cases k with
+    | send => exact ⟨1, Nat.le_refl _, Or.inl rfl⟩
+    | recv n => exact ⟨n, hk, Or.inr rfl⟩
+  obtain ⟨n, hn, hcall⟩ := hcall
+  obtain ⟨i1, e1, w1, p1, c1, s1⟩ := stepC_spec C hC P dc ds hdc n hn y.sys hy.inv _ hcall
+  rw [← sys_peer C P dc rx y k] at i1 e1 w1 p1 c1 s1
+  exact ⟨⟨i1, hy.reads, hy.po, hy.reg, hy.sup⟩, rfl, w1, p1, c1, s1⟩
+
+/-- the composition as a fair-progress system: side `true` = the polling client, side `false` = the server's driver -/
+def asTS (C : Cfg) (hC : 1 < C.stepsMax) (P : HsP) (dc ds : Bytes) (hdc : dc ≠ []) (rx : Nat) (hrx : 1 ≤ rx) :
+    Fair.TS SysAS ActA where
+  step := SysAS.step C P dc rx
+  inv := AInv P dc ds
+  mu y := work P y.ep + work P y.x.s.e
+  side a := match a with
+    | .drive => false
+    | .peer _ => true
+  can y r := if r then CanProg true y.ep y.x.s.w else CanProg false y.x.s.e y.x.s.w
+  fin := SysAS.bothFinished
+  ok := ActA.okA
+  step_ok := by
+    intro y a hy ha
+    cases a with
+    | drive =>
+      obtain ⟨i1, e1, w1, p1, c1, s1⟩ := drive_spec C hC P dc ds rx hrx y hy
+      refine ⟨i1, ?_, ?_, ?_, ?_⟩
+      · show work P _ + work P _ ≤ work P _ + work P _
+        rw [e1]; omega
+      · intro hp
+        have := p1 hp
+        show work P _ + work P _ < work P _ + work P _
+        rw [e1]; omega
+      · intro hp
+        show CanProg true _ _
+        rw [e1]
+        obtain ⟨h1, h2⟩ := hp
+        refine ⟨h1, ?_⟩
+        rcases h2 with h2 | h2
+        · exact Or.inl h2
+        · right; simp only [Chan.inb, if_true] at h2 ⊢; omega
+      · intro hf
+        exact ⟨by rw [e1]; exact hf.1, Nat.le_trans hf.2 s1⟩
+    | peer k =>
+      obtain ⟨i1, e1, w1, p1, c1, s1⟩ := peer_spec C hC P dc ds hdc rx y hy k ha
+      refine ⟨i1, ?_, ?_, ?_, ?_⟩
+      · show work P _ + work P _ ≤ work P _ + work P _
+        rw [e1]; omega
+      · intro hp
+        have := p1 hp
+        show work P _ + work P _ < work P _ + work P _
+        rw [e1]; omega
+      · intro hp
+        show CanProg false _ _
+        rw [e1]
+        obtain ⟨h1, h2⟩ := hp
+        refine ⟨h1, ?_⟩
+        rcases h2 with h2 | h2
+        · exact Or.inl h2
+        · right; simp only [Chan.inb, Bool.false_eq_true, if_false] at h2 ⊢; omega
+      · intro hf
+        exact ⟨Nat.le_trans hf.1 s1, by rw [e1]; exact hf.2⟩
+  live := by
+    intro y hy hnf
+    have hnf' : ¬ y.sys.bothFinished := by
+      intro hb; apply hnf
+      simpa [SysAS.sys, mkSys, Sys.bothFinished, SysAS.bothFinished] using hb
+    rcases can_progress P dc ds y.sys hy.inv hnf' with h | h
+    · left; simpa [SysAS.sys, mkSys] using h
+    · right; simpa [SysAS.sys, mkSys] using h
+  zero := by
+    intro y _ h0
+    exact ⟨work_zero_fin P _ (by omega), work_zero_fin P _ (by omega)⟩
+
+theorem aInv_init (P : HsP) (dc ds : Bytes) (segs : List Nat) : AInv P dc ds (SysAS.init P segs) :=
+  ⟨sysInv_init P dc ds segs, fun _ => rfl, rfl, rfl, rfl⟩
+
+theorem asTS_run (C : Cfg) (hC : 1 < C.stepsMax) (P : HsP) (dc ds : Bytes) (hdc : dc ≠ []) (rx : Nat) (hrx : 1 ≤ rx)
+    (l : List ActA) (y : SysAS) : (asTS C hC P dc ds hdc rx hrx).run l y = SysAS.run C P dc rx l y := rfl
+
 end SockModel.Hs
